@@ -1294,10 +1294,12 @@ package server
 //@ func (*LockDB).checkMillisecondTimeOut
 //@   requires self != nil
 //@   loop#2 backedge C05.ms.handover: implies(nodeQueues[j] != nil, !lock.timeouted && lock.command.Timeout < MILLISECOND_QUEUE_LENGTH)
+//@   loop#2 backedge C17.ms.reclaim: implies(calls(FreeLock) > athead(calls(FreeLock)) && athead(lock.manager) != nil && athead(lock.manager).refCount == 0, calls(addWaitRemoveLockManager) > athead(calls(addWaitRemoveLockManager)))
 //@   modifies all
 //@ func (*LockDB).checkMillisecondExpried
 //@   requires self != nil
 //@   loop#2 backedge C06.ms.handover: implies(nodeQueues[j] != nil, !lock.expried && lock.command.Expried < MILLISECOND_QUEUE_LENGTH)
+//@   loop#2 backedge C17.ms.reclaim: implies(calls(FreeLock) > athead(calls(FreeLock)) && athead(lock.manager) != nil && athead(lock.manager).refCount == 0, calls(addWaitRemoveLockManager) > athead(calls(addWaitRemoveLockManager)))
 //@   modifies all
 
 // the command a restart (HandleLoad) or a follower (HandleReplay) hands to the lock engine carries exactly the
